@@ -42,4 +42,9 @@ def load():
                     if tok is not None:
                         table[tok] = mm.group(3)
         out["ops"][name] = table
+    # which production's repetition is separated by a literal token:  Or: .. ("||" <And>)* => cst::Or  ->  {"||": "Or"}
+    out["sep"] = {}
+    for m in re.finditer(r"\n(\w+)\s*:\s*Node<Option<cst::(\w+)>>\s*=\s*\{(.*?)\n\}", src, re.S):
+        for lit in re.findall(r'\(\s*"((?:[^"\\]|\\.)*)"\s*<\w+>\s*\)\*', m.group(3)):
+            out["sep"][lit] = m.group(2)
     return out
